@@ -80,6 +80,13 @@ def rk_list(eng, st, pre):
     return st.alloc(OList(arr=arr, ln=ln, ekind='val', cls='ListContainer'), 'list')
 
 
+def rk_container(eng, st, pre):
+    """a container whose address and entries the ensures clauses pin"""
+    a = fresh('res_container', t.INT)
+    st.assume(t.ge(a, t.ZERO))
+    return st.alloc(OContainer(a), 'container')
+
+
 CALLER_GHOST = {'LE', 'loop_k', 'stopped', 'left_by_break', 'gr_stopfield', 'first_sub_ctx', 'first_sub_path'}
 USE_LOG = set()      # contracts applied at call sites since the log was last cleared (dependency closure of a proof)
 
